@@ -37,7 +37,7 @@ for item, ids in sorted(old.items()):
         own = meta.get('property')
         if own and own not in ids and ids:
             notown.append((item, own, ids))
-    if item.startswith('b') and re.match(r'^b\d-r\d', item):
+    if item.startswith('b') and re.match(r'^b\d+-r\d', item):
         if ids:
             print('FALSE ALARM on benign refactoring', item, ids)
         continue
